@@ -1,6 +1,13 @@
 import TinsModel.Tcp.Spec
 import TinsModel.Basic.Seq32Lemmas
-/- Property C06 — theorems (statements only here; helper lemmas live in TinsModel/Tcp/*). -/
+import TinsModel.Tcp.LemmasRefine
+import TinsModel.Tcp.LemmasLegacy
+import TinsModel.Tcp.Flow
+/- Property C06 — theorems (statements only here; helper lemmas live in TinsModel/Tcp/Lemmas*.lean).
+
+   Conventions: an arrival history is a `List SegD` with the LATEST arrival first (so every suffix is an
+   earlier moment); `runModel isn h` is the code-shaped model of `DataTracker` after the arrivals `h`, started
+   as `DataTracker(isn)`; `frontier h |s|` is the spec's "least position that has not arrived". -/
 namespace Tins.Props.C06
 open Tins Tins.DT
 
@@ -10,5 +17,285 @@ theorem seq_compare_is_absolute_order (isn a b : Nat) (h : a < b + 2147483648) (
     seqCompare (wrap32 (isn + a)) (wrap32 (isn + b)) = if a = b then 0 else if a < b then -1 else 1 := by
   have := seqCompare_abs (isn + a) (isn + b) (by omega) (by omega)
   rw [this]; split <;> split <;> (try split) <;> (try split) <;> omega
+
+/-- **Main theorem, all sizes.** For every stream shorter than 2^31, every initial sequence number (including
+    those for which `isn + |s|` wraps past 2^32) and every valid arrival history — any order, duplication,
+    overlap, re-cut retransmissions, segments starting before the ISN — the observable state of the tracker
+    satisfies the spec, the byte counter being compared modulo 2^32 (it is a `uint32_t`).
+    `HistOK` is suffix-closed, so this is a statement about the state after EVERY arrival. -/
+theorem tracker_refines_spec_wide (s : Bytes) (isn : Nat) (h : List SegD)
+    (hs : s.length < 2147483648) (hisn : isn < 4294967296) (hh : HistOK s h) :
+    specOKw s isn (h.map SegD.seg) (runModel isn h).obs = true := by
+  have hsim := run_sim hs hisn hh
+  have hinv := runAbstract_AInv (tie := false) hh
+  have htot := runModel_TotInv isn h
+  have hk := AInv_frontier hinv
+  have hall := chunks_all_ok (isn := isn) hinv hs
+  unfold specOKw Tracker.obs
+  simp only [hk, hsim.seq, hsim.buf, hsim.payload, hinv.1.payload_eq]
+  have ht : (runModel isn h).total = wrap32 (sumSizes (mapW isn (runAbstract false h).buf)) := by
+    rw [← hsim.buf]; exact htot.2
+  rw [ht]
+  unfold sumSizes W at *
+  simp only [beq_self_eq_true, Bool.true_and, Bool.and_true]
+  exact hall
+
+/-- **Main theorem (the property's quantifier: streams of at most 64 KiB).** As above with the byte counter
+    compared exactly: `total_buffered_bytes()` equals the bytes actually held. -/
+theorem tracker_refines_spec (s : Bytes) (isn : Nat) (h : List SegD)
+    (hs : s.length ≤ 65536) (hisn : isn < 4294967296) (hh : HistOK s h) :
+    specOK s isn (h.map SegD.seg) (runModel isn h).obs = true := by
+  have hs' : s.length < 2147483648 := by omega
+  have hsim := run_sim hs' hisn hh
+  have hinv := runAbstract_AInv (tie := false) hh
+  have htot := runModel_TotInv isn h
+  have hk := AInv_frontier hinv
+  have hall := chunks_all_ok (isn := isn) hinv hs'
+  have hlt := AInv_sumSizes_lt hinv hs
+  unfold specOK specOKat Tracker.obs
+  simp only [hk, hsim.seq, hsim.buf, hsim.payload, hinv.1.payload_eq]
+  have ht : (runModel isn h).total = sumSizes (mapW isn (runAbstract false h).buf) := by
+    rw [htot.2, hsim.buf, sumSizes_mapW]
+    unfold wrap32; omega
+  rw [ht]
+  unfold sumSizes W at *
+  simp only [beq_self_eq_true, Bool.true_and, Bool.and_true]
+  exact hall
+
+/-- the same after every arrival, spelled out: dropping the `n` latest arrivals gives an earlier moment -/
+theorem tracker_refines_spec_every_moment (s : Bytes) (isn : Nat) (h : List SegD)
+    (hs : s.length ≤ 65536) (hisn : isn < 4294967296) (hh : HistOK s h) (n : Nat) :
+    specOK s isn ((h.drop n).map SegD.seg) (runModel isn (h.drop n)).obs = true := by
+  apply tracker_refines_spec s isn _ hs hisn
+  induction n generalizing h with
+  | zero => exact hh
+  | succ n ih =>
+    cases h with
+    | nil => exact hh
+    | cons g h => exact ih h hh.2
+
+/-- time order: `h` lists the arrivals OLDEST first and the model is folded over it; the spec holds after
+    every prefix of the history -/
+theorem tracker_refines_spec_fwd (s : Bytes) (isn : Nat) (h : List SegD)
+    (hs : s.length ≤ 65536) (hisn : isn < 4294967296) (hh : HistOK s h.reverse) (n : Nat) :
+    specOK s isn ((h.take n).reverse.map SegD.seg) (runModelFwd isn (h.take n)).obs = true := by
+  rw [runModelFwd_eq]
+  have e : (h.take n).reverse = h.reverse.drop (h.length - n) := by
+    rw [List.reverse_take]
+  rw [e]
+  exact tracker_refines_spec_every_moment s isn h.reverse hs hisn hh _
+
+/-- the hypothesis on histories is implied by a condition on each segment alone: it starts less than 2^31
+    before the end of the stream, ends inside it and carries bytes of the stream (the negative part is arbitrary) -/
+theorem tracker_refines_spec_static (s : Bytes) (isn : Nat) (h : List SegD)
+    (hs : s.length ≤ 65536) (hisn : isn < 4294967296) (hall : ∀ g ∈ h, g.okStatic s) :
+    specOK s isn (h.map SegD.seg) (runModel isn h).obs = true :=
+  tracker_refines_spec s isn h hs hisn (histOK_of_static hall)
+
+/-- The half-sequence-space hypothesis cannot be weakened to "`-2^31 < off`": an (empty) segment exactly 2^31
+    behind the delivery point compares as *ahead* (RFC 1982 leaves that distance undefined) and is buffered
+    at a position outside the stream. -/
+theorem half_window_needed :
+    let s : Bytes := [7]
+    let h : List SegD := [⟨-2147483647, []⟩, ⟨0, [7]⟩]
+    (∀ g ∈ h, -2147483648 < g.off ∧ g.off + (g.data.length : Int) ≤ (s.length : Int) ∧ g.agrees s) ∧
+    ¬ HistOK s h ∧ specOKw s 0 (h.map SegD.seg) (runModel 0 h).obs = false := by
+  decide
+
+/-- The statement with the weaker, position-independent bound `-2^31 < off` in place of "less than 2^31 behind
+    the delivery point" (kept visible: it is NOT a theorem, see `tracker_refines_spec_unwindowed_fails`; the
+    property text asks for segments "within half the sequence space of the current position", which is `HistOK`). -/
+def tracker_refines_spec_unwindowed : Prop :=
+  ∀ (s : Bytes) (isn : Nat) (h : List SegD), s.length < 2147483648 → isn < 4294967296 →
+    (∀ g ∈ h, -2147483648 < g.off ∧ g.off + (g.data.length : Int) ≤ (s.length : Int) ∧ g.agrees s) →
+    specOKw s isn (h.map SegD.seg) (runModel isn h).obs = true
+
+theorem tracker_refines_spec_unwindowed_fails : ¬ tracker_refines_spec_unwindowed := by
+  intro H
+  have h1 := H [7] 0 [⟨-2147483647, []⟩, ⟨0, [7]⟩] (by decide) (by decide) half_window_needed.1
+  have h2 := half_window_needed.2.2
+  rw [h2] at h1
+  exact absurd h1 (by decide)
+
+/-- **The byte counter is exact in every reachable state**, for any sequence of `process_payload` /
+    `advance_sequence` calls with any arguments (no assumption on the data at all): keys are unique and
+    `total_buffered_bytes_` is the sum of the sizes of the buffered chunks as a `uint32_t`. -/
+theorem buffered_bytes_exact (seq0 : Nat) (ops : List Op) :
+    (ops.foldl applyOp (Tracker.init seq0)).total = wrap32 (sumSizes (ops.foldl applyOp (Tracker.init seq0)).buf) ∧
+    (keys (ops.foldl applyOp (Tracker.init seq0)).buf).Nodup := by
+  have := foldl_applyOp_TotInv ops (TotInv_init seq0)
+  exact ⟨this.2, this.1⟩
+
+/-- the delivered data is at every moment the prefix of the stream up to the frontier of the arrived set -/
+theorem delivered_is_prefix (s : Bytes) (isn : Nat) (h : List SegD)
+    (hs : s.length < 2147483648) (hisn : isn < 4294967296) (hh : HistOK s h) :
+    (runModel isn h).payload = s.take (frontier (h.map SegD.seg) s.length) := by
+  have hsim := run_sim hs hisn hh
+  have hinv := runAbstract_AInv (tie := false) hh
+  rw [AInv_frontier hinv, hsim.payload, hinv.1.payload_eq]
+
+/-- each byte is delivered exactly once: `process_payload` only ever appends to the delivered data (for any
+    arguments), and by `delivered_is_prefix` what has been appended so far is exactly `s[0, k)` -/
+theorem each_byte_once (t : Tracker) (seq : Nat) (payload : Bytes) :
+    ∃ d, (processPayload t seq payload).1.payload = t.payload ++ d :=
+  processPayload_payload_append t seq payload
+
+/-- as soon as every byte below `n` has arrived, everything below `n` has been delivered and no buffered
+    chunk starts at or below `n` (absolute start of a chunk = delivery point + its distance in sequence space) -/
+theorem complete_prefix_delivered (s : Bytes) (isn : Nat) (h : List SegD)
+    (hs : s.length < 2147483648) (hisn : isn < 4294967296) (hh : HistOK s h)
+    (n : Nat) (hn : n ≤ s.length) (harr : ∀ p, p < n → covered (h.map SegD.seg) p = true) :
+    (runModel isn h).payload.take n = s.take n ∧ n ≤ (runModel isn h).payload.length ∧
+    ∀ c ∈ (runModel isn h).buf, n < (runModel isn h).payload.length + sub32 c.1 (runModel isn h).seq := by
+  have hk := frontier_ge (h.map SegD.seg) s.length n hn harr
+  have hle := frontier_le (h.map SegD.seg) s.length
+  have hp := delivered_is_prefix s isn h hs hisn hh
+  have hsim := run_sim hs hisn hh
+  have hinv := runAbstract_AInv (tie := false) hh
+  have hf := AInv_frontier hinv
+  have hlen : (runModel isn h).payload.length = frontier (h.map SegD.seg) s.length := by
+    rw [hp, List.length_take]; omega
+  refine ⟨?_, by omega, ?_⟩
+  · rw [hp, List.take_take]; congr 1; omega
+  · intro c hc
+    rw [hsim.buf] at hc
+    obtain ⟨c0, hc0, rfl⟩ := List.mem_map.mp hc
+    have habove := hinv.2 c0 hc0
+    have hin := (hinv.1.chunks c0 hc0).inside
+    have hkN := hinv.1.k_le
+    rw [hsim.seq, hlen, hf]
+    have : sub32 (W isn c0.1) (W isn (runAbstract false h).k) = c0.1 - (runAbstract false h).k :=
+      sub32_W (by omega) (by omega)
+    simp only [this]
+    omega
+
+/-- `process_payload` keeps its documented contract for ANY state and arguments: it returns true iff data was
+    appended to the delivered payload (this is what the `fix:` commit on `DataTracker::process_payload`
+    establishes; before it, a retransmission ending exactly at the delivery point returned true) -/
+theorem process_payload_true_iff_grew (t : Tracker) (seq : Nat) (payload : Bytes) :
+    (processPayload t seq payload).2 = true ↔
+      t.payload.length < (processPayload t seq payload).1.payload.length := by
+  rw [processPayload_flag]; simp
+
+/-- **Flow::process_packet**: fed with the next arrival `g` of a valid history, the flow's tracker moves as the
+    tracker model, the data callback fires iff the delivered prefix grew, and the out-of-order callback fires
+    iff the segment lies entirely below the delivery point or starts above it. -/
+theorem flow_callbacks (s : Bytes) (isn : Nat) (g : SegD) (h : List SegD)
+    (hs : s.length < 2147483648) (hisn : isn < 4294967296) (hh : HistOK s (g :: h)) :
+    let k := frontier (h.map SegD.seg) s.length
+    let res := ({ tracker := runModel isn h } : Flow).processPacket (seqOf isn g.off) (some g.data)
+    res.1.tracker = runModel isn (g :: h) ∧
+    (res.2.data = true ↔ k < frontier ((g :: h).map SegD.seg) s.length) ∧
+    (res.2.outOfOrder = true ↔ (g.off + (g.data.length : Int) < (k : Int) ∨ (k : Int) < g.off)) := by
+  intro k res
+  have hp0 := delivered_is_prefix s isn h hs hisn hh.2
+  have hp1 := delivered_is_prefix s isn (g :: h) hs hisn hh
+  have hsim := run_sim hs hisn hh.2
+  have hinv := runAbstract_AInv (tie := false) hh.2
+  have hf := AInv_frontier hinv
+  have hle0 := frontier_le (h.map SegD.seg) s.length
+  have hle1 := frontier_le ((g :: h).map SegD.seg) s.length
+  obtain ⟨hwin, hin, _⟩ := hh.1
+  have hkN : k ≤ s.length := hle0
+  have hc1 := chunkEnd_compare (isn := isn) (n := g.data.length) hs hkN hwin hin
+  have hc2 := start_compare (isn := isn) (n := g.data.length) hs hkN hwin hin
+  have hseq : (runModel isn h).seq = W isn k := by rw [hsim.seq, ← hf]
+  refine ⟨rfl, ?_, ?_⟩
+  · show (processPayload (runModel isn h) (seqOf isn g.off) g.data).2 = true ↔ _
+    rw [process_payload_true_iff_grew]
+    show (runModel isn h).payload.length < (runModel isn (g :: h)).payload.length ↔ _
+    rw [hp0, hp1, List.length_take, List.length_take]
+    show min k s.length < min (frontier ((g :: h).map SegD.seg) s.length) s.length ↔ _
+    omega
+  · show (decide (seqCompare (wrap32 (seqOf isn g.off + g.data.length)) (runModel isn h).seq < 0)
+        || decide (seqCompare (seqOf isn g.off) (runModel isn h).seq > 0)) = true ↔ _
+    rw [hseq, hc1, hc2]
+    simp only [Bool.or_eq_true, decide_eq_true_eq]
+    constructor
+    · rintro (h1 | h1)
+      · left; revert h1; split <;> (try split) <;> intro h1 <;> first | omega | (exact absurd h1 (by decide))
+      · right; revert h1; split <;> (try split) <;> intro h1 <;> first | omega | (exact absurd h1 (by decide))
+    · rintro (h1 | h1)
+      · left; rw [if_neg (by omega), if_pos h1]; decide
+      · right; rw [if_neg (by omega), if_neg (by omega)]; decide
+
+/-- **Legacy follower, same delivery guarantee.** One direction of `TCPStream` (as driven by
+    `TCPStreamFollower` after the handshake) run over a valid arrival history satisfies the same spec as the
+    new tracker: delivered = the prefix up to the frontier, next expected sequence number, every buffered
+    fragment strictly above the delivery point and equal to its slice of the stream
+    (the legacy class has no byte counter: the sum of the fragment sizes stands in for it). -/
+theorem legacy_refines_spec (s : Bytes) (isn : Nat) (h : List SegD)
+    (hs : s.length < 2147483648) (hisn : isn < 4294967296) (hh : HistOK s h) :
+    specOK s isn (h.map SegD.seg)
+      ⟨(runLegacy isn h).seq, sumSizes (runLegacy isn h).frags, (runLegacy isn h).payload, (runLegacy isn h).frags⟩
+      = true := by
+  have hsim := runLegacy_sim hs hisn hh
+  have hinv := runAbstract_AInv (tie := true) hh
+  have hk := AInv_frontier hinv
+  have hall := chunks_all_ok (isn := isn) hinv hs
+  unfold specOK specOKat
+  simp only [hk, hsim.seq, hsim.frags, hsim.payload, hinv.1.payload_eq]
+  unfold sumSizes W at *
+  simp only [beq_self_eq_true, Bool.true_and, Bool.and_true]
+  exact hall
+
+theorem legacy_delivers_prefix (s : Bytes) (isn : Nat) (h : List SegD)
+    (hs : s.length < 2147483648) (hisn : isn < 4294967296) (hh : HistOK s h) :
+    (runLegacy isn h).payload = s.take (frontier (h.map SegD.seg) s.length) := by
+  have hsim := runLegacy_sim hs hisn hh
+  have hinv := runAbstract_AInv (tie := true) hh
+  rw [AInv_frontier hinv, hsim.payload, hinv.1.payload_eq]
+
+/-- the legacy follower and the new tracker deliver the same bytes at every moment -/
+theorem legacy_equiv (s : Bytes) (isn : Nat) (h : List SegD)
+    (hs : s.length < 2147483648) (hisn : isn < 4294967296) (hh : HistOK s h) :
+    (runLegacy isn h).payload = (runModel isn h).payload ∧ (runLegacy isn h).seq = (runModel isn h).seq := by
+  have hl := runLegacy_sim hs hisn hh
+  have hm := run_sim hs hisn hh
+  have hil := runAbstract_AInv (tie := true) hh
+  have him := runAbstract_AInv (tie := false) hh
+  have e : (runAbstract true h).k = (runAbstract false h).k := by
+    rw [← AInv_frontier hil, ← AInv_frontier him]
+  refine ⟨?_, ?_⟩
+  · rw [hl.payload, hm.payload, hil.1.payload_eq, him.1.payload_eq, e]
+  · rw [hl.seq, hm.seq, e]
+
+/-- `TCPStream::generic_process` (so `update`, so the follower's data functor): true iff the stored payload
+    grew, and the payload only ever grows by appending — for any state and arguments (after the `fix:` commit) -/
+theorem legacy_update_true_iff_grew (t : LStream) (seq : Nat) (payload : Bytes) :
+    ((genericProcess t seq payload).2 = true ↔ t.payload.length < (genericProcess t seq payload).1.payload.length) ∧
+    ∃ d, (genericProcess t seq payload).1.payload = t.payload ++ d := by
+  refine ⟨?_, genericProcess_payload_append t seq payload⟩
+  rw [genericProcess_flag]; simp
+
+/-! ### non-vacuity: the hypotheses are satisfied by non-trivial histories (reordering, overlap, re-cut
+    retransmission, a segment starting before the ISN, and an ISN for which the stream crosses 2^32) -/
+
+/-- stream of 6 bytes at ISN 2^32-3 (wraps inside the stream); arrivals in time order: [3,6) first (buffered),
+    then a stale-start segment [-2,2) whose first two bytes are not stream bytes, then [1,4) overlapping both -/
+def exStream : Bytes := [1, 2, 3, 4, 5, 6]
+def exHist : List SegD := [⟨1, [2, 3, 4]⟩, ⟨-2, [9, 9, 1, 2]⟩, ⟨3, [4, 5, 6]⟩]   -- latest first
+
+example : HistOK exStream exHist := by decide
+example : ∀ g ∈ exHist, g.okStatic exStream := by decide
+example : (runModel 4294967293 exHist).payload = exStream ∧ (runModel 4294967293 exHist).seq = 3 ∧
+    (runModel 4294967293 exHist).buf = [] := by decide
+-- after the first two arrivals the chunk [3,6) is still buffered under the wrapped key 0
+example : (runModel 4294967293 (exHist.drop 1)).buf = [(0, [4, 5, 6])] ∧
+    (runModel 4294967293 (exHist.drop 1)).payload = [1, 2] ∧ (runModel 4294967293 (exHist.drop 1)).total = 3 := by
+  decide
+example : (runLegacy 4294967293 exHist).payload = exStream ∧ (runLegacy 4294967293 (exHist.drop 1)).frags = [(0, [4, 5, 6])] := by
+  decide
+-- the second arrival (stale start, ends at 2 > 0) makes the data callback fire and is not out of order;
+-- a retransmission of it afterwards fires nothing (this is the behaviour established by the fix)
+example : (({ tracker := runModel 4294967293 (exHist.drop 2) } : Flow).processPacket (seqOf 4294967293 (-2)) (some [9, 9, 1, 2])).2
+    = ⟨false, true⟩ := by decide
+example : (({ tracker := runModel 4294967293 (exHist.drop 1) } : Flow).processPacket (seqOf 4294967293 (-2)) (some [9, 9, 1, 2])).2
+    = ⟨false, false⟩ := by decide
+example : specOK exStream 4294967293 (exHist.map SegD.seg) (runModel 4294967293 exHist).obs = true :=
+  tracker_refines_spec exStream 4294967293 exHist (by decide) (by decide) (by decide)
+-- `buffered_bytes_exact` on a history that is NOT a valid stream (conflicting data, advance_sequence)
+example : (([Op.seg 10 [1, 2], Op.seg 10 [3, 4, 5], Op.seg 4294967295 [7], Op.adv 0, Op.seg 0 [8]]).foldl applyOp
+    (Tracker.init 4294967290)).total = 3 := by decide
 
 end Tins.Props.C06
